@@ -8,7 +8,7 @@ import (
 	"fmt"
 	"io"
 	"io/ioutil"
-	"strings"
+	"net/http"
 	"sync"
 	"time"
 
@@ -29,6 +29,8 @@ type WebsocketTransport struct {
 	wsConn  *websocket.Conn
 	queue   chan []byte
 	logFile io.Writer
+	// secure: the connection established by the last Connect runs over TLS
+	secure bool
 
 	closeCtx  context.Context
 	closeFunc context.CancelFunc
@@ -55,13 +57,17 @@ func (t *WebsocketTransport) Connect() (string, error) {
 		defer cancelConnect()
 	}
 
+	t.secure = false
 	wsConn, response, err := websocket.Dial(ctx, t.Config.Address, &websocket.DialOptions{
+		HTTPClient:   &http.Client{CheckRedirect: noDowngradeRedirect},
 		Subprotocols: []string{"xmpp"},
 	})
 
 	if err != nil {
 		return "", NewConnError(err, true)
 	}
+	// What counts is the connection the handshake ended on, not the address it started from.
+	t.secure = response.TLS != nil
 	if response.Header.Get("Sec-WebSocket-Protocol") != "xmpp" {
 		t.cleanup(websocket.StatusBadGateway)
 		return "", NewConnError(ServerDoesNotSupportXmppOverWebsocket, true)
@@ -139,8 +145,21 @@ func (t WebsocketTransport) GetDecoder() *xml.Decoder {
 	return t.decoder
 }
 
+// IsSecure reports whether the established connection is protected by TLS.
 func (t WebsocketTransport) IsSecure() bool {
-	return strings.HasPrefix(t.Config.Address, "wss:")
+	return t.secure
+}
+
+// noDowngradeRedirect is the redirect policy of the opening handshake: the default one of net/http (at most
+// 10 requests), except that a redirect never leads from a TLS protected URL to one that is not.
+func noDowngradeRedirect(req *http.Request, via []*http.Request) error {
+	if len(via) >= 10 {
+		return errors.New("stopped after 10 redirects")
+	}
+	if via[len(via)-1].URL.Scheme == "https" && req.URL.Scheme != "https" {
+		return errors.New("refusing a redirect from a secure websocket address to " + req.URL.Scheme + "://" + req.URL.Host)
+	}
+	return nil
 }
 
 func (t WebsocketTransport) Ping() error {
